@@ -217,7 +217,9 @@ func (t *TxWatcher) AddWaitForConfirmationTx(swapId string, txId string, _ uint3
 					// TODO: Check if this is handled correctly by the swap state
 					// machine.
 					log.Infof("[TxWatcher] Wait for confirmation on swap %s: Confirmations already above csv limit for tx %s", swapId, txId)
-					_ = t.csvPassedCallback(swapId)
+					if t.confirmationCallback != nil {
+						_ = t.confirmationCallback(swapId, "", fmt.Errorf("opening tx confirmed beyond the csv safety limit"))
+					}
 					return
 				}
 
